@@ -472,3 +472,224 @@ Proof.
   destruct (zw_tail cx s1 t ok t1 s' res tags _ _ H I1 Hst1 Hwin1 Hfl1 Ht1 ltac:(lia)) as (T' & W' & P').
   split; [|split; assumption]. exists (cx_now cx + rto), rto. split; [exact T' | lia].
 Qed.
+
+(* a segment at an ESTABLISHED sender, whatever its timer: the queue shrinks (SND.UNA advanced) or
+   SND.UNA and the queue are as before *)
+Theorem process_sender_core : forall cx s ip r s' reply tags,
+  ctx_ok cx -> seg_ok r -> tcp_live_inv s ->
+  s_state s = Established -> s_state s' = Established ->
+  rb_len (s_tx_buffer s) < 2 ^ 31 ->
+  tcp_process cx s ip r = Ok (s', reply, tags) ->
+  rb_len (s_tx_buffer s') < rb_len (s_tx_buffer s) \/
+  (s_local_seq_no s' = s_local_seq_no s /\ s_tx_buffer s' = s_tx_buffer s).
+Proof.
+  intros cx s ip r s' reply tags Hcx Hseg I Hst Hst' Htxb H.
+  destruct (process_sender_win _ _ _ _ _ _ _ Hcx Hseg I Hst Hst' Htxb H) as [(_ & _ & _ & C4 & C5 & _) | (Hns & _)];
+    [right; split; assumption|].
+  unfold tcp_process in H.
+  destruct (negb (tcp_accepts s ip r)); [discriminate|].
+  assert (Hcore : forall q, core_eq s q -> s_local_seq_no q = s_local_seq_no s /\ s_tx_buffer q = s_tx_buffer s).
+  { intros q (_ & _ & _ & C4 & C5 & _). auto. }
+  obind_inv H. rename a into p1. rename E into H1.
+  destruct p1 as [t1 []|t1 s1 rep1].
+  2:{ inversion H; subst s'. right. apply Hcore. exact (ack_check_ret_core _ _ _ _ _ _ _ H1). }
+  obind_inv H. rename a into p2. rename E into H2.
+  pose proof (process_window_spec _ _ _ _ _ H2 I) as P2.
+  destruct p2 as [t2 ((s2, payload), off)|t2 s2r rep2].
+  2:{ inversion H; subst s'. right. apply Hcore. apply (window_ret_core _ _ _ _ _ _ _ ltac:(rewrite Hst; discriminate) H2). }
+  pose proof (inv_core_eq _ _ P2 I) as I2.
+  pose proof P2 as (C1 & C2 & C3 & C4 & C5 & C6 & C7 & C8 & C9 & C10 & C11).
+  obind_inv H. destruct a as ((al, aof), aall). rename E into Hal.
+  obind_inv H. rename a into p3. rename E into H3.
+  destruct (quash_spec s2 r) as (Qr & Qs & Qp).
+  assert (Hst2 : s_state s2 = Established) by congruence.
+  unfold tcp_process_transition in H3. rewrite Hst2 in H3.
+  destruct (tcp_process_quash s2 r) eqn:Hq; try (exfalso; apply Qp; reflexivity).
+  - inversion H3; subst p3; clear H3.
+    assert (Hnr : r_control r <> CRst) by (intros X; apply Qr in X; congruence).
+    pose proof (inv_weak _ I2) as W3.
+    obind_inv H. destruct a as (s4, wu). rename E into H4.
+    destruct (update_remote_spec _ _ _ _ _ _ H4 W3 Hseg) as (W4 & S4 & T4 & U4 & N4 & _ & L4).
+    obind_inv H. destruct a as (s5, t5). rename E into H5.
+    destruct (dup_ack_spec _ _ _ _ _ _ _ H5 W4 Hseg) as (W5 & S5 & B5 & _ & _ & T5 & Seq5).
+    pose proof (li_tx s I) as ((Htx0 & _) & _).
+    destruct (ack_check_established _ _ _ _ _ Hst Hnr (li_una s I)
+                ltac:(split; [lia | change (2 ^ 31) with 2147483648; lia]) ltac:(apply Hseg) H1)
+      as (d & Hack & Hd).
+    rewrite Hack in Seq5. destruct Seq5 as (U5 & N5).
+    destruct (ack_len_established s2 r al aof aall d Hst2 ltac:(rewrite C5; apply (li_una s I))
+                ltac:(change (2 ^ 31) with 2147483648; lia) ltac:(rewrite C5; exact Hack) Hnr Hal) as (-> & Ed).
+    subst d.
+    set (q5 := match r_timestamp r with
+               | Some (tsval, _) => upd_last_remote_tsval s5 tsval
+               | None => s5
+               end) in *.
+    assert (D5 : s_local_seq_no q5 = s_local_seq_no s5 /\ s_tx_buffer q5 = s_tx_buffer s5)
+      by (unfold q5; destruct (r_timestamp r) as [(tv, te)|]; sproj; auto).
+    destruct D5 as (D51 & D52). clearbody q5.
+    pose proof (timers_spec cx q5 al aall) as P6.
+    destruct (tcp_process_timers cx q5 al aall) as (s6, t6). cbn [fst] in P6.
+    destruct P6 as ((_ & _ & F3 & F4 & _) & _).
+    pose proof (zwp_spec cx s6 al) as P7.
+    destruct (tcp_process_zwp cx s6 al) as (s7, t7). cbn [fst] in P7.
+    destruct P7 as ((_ & _ & G3 & G4 & _) & _).
+    obind_inv H. destruct a as ((s8, rep8), t8). rename E into H8.
+    destruct (payload_core _ _ _ _ _ _ _ _ _ H8) as (_ & _ & _ & P4 & P5 & _).
+    inversion H; subst s' reply tags; clear H.
+    destruct (Z.eq_dec al 0) as [Eal | Nal].
+    + right. subst al. assert (Ea : sq (s_local_seq_no s + 0) = s_local_seq_no s)
+        by (symmetry; apply u32_sq_self; apply (li_una s I)).
+      split; [rewrite P5, G4, F4, D51, U5; exact Ea|].
+      rewrite P4, G3, F3, D52, B5, (update_remote_tx_same _ _ _ _ _ _ H4 ltac:(lia)); exact C4.
+    + left. rewrite P4, G3, F3, D52, B5, L4, C4.
+      destruct (Z.gtb_spec al 0); lia.
+  - inversion H3; subst p3; clear H3. inversion H; subst s'. right. apply Hcore. exact P2.
+  - (* FIN: CLOSE-WAIT, not ESTABLISHED any more *)
+    exfalso. inversion H3; subst p3; clear H3.
+    pose proof (inv_weak _ I2) as W2.
+    set (s3 := tcp_set_state (tcp_fin_received s2) CloseWait) in *.
+    assert (S3 : s_state s3 = CloseWait) by (unfold s3, tcp_fin_received; sproj; reflexivity).
+    assert (W3 : tcp_weak_inv s3).
+    { unfold s3, tcp_fin_received. weak_destruct W2. constructor; sproj; auto; try (intros; discriminate).
+      - rewrite Hst2 in *. auto.
+      - intros X. destruct (Wc X) as [Y|Y]; rewrite Hst2 in Y; discriminate. }
+    clearbody s3.
+    obind_inv H. destruct a as (s4, wu). rename E into H4.
+    destruct (update_remote_spec _ _ _ _ _ _ H4 W3 Hseg) as (W4 & S4 & _).
+    obind_inv H. destruct a as (s5, t5). rename E into H5.
+    destruct (dup_ack_spec _ _ _ _ _ _ _ H5 W4 Hseg) as (W5 & S5 & _).
+    set (q5 := match r_timestamp r with
+               | Some (tsval, _) => upd_last_remote_tsval s5 tsval
+               | None => s5
+               end) in *.
+    assert (D54 : s_state q5 = s_state s5) by (unfold q5; destruct (r_timestamp r) as [(tv, te)|]; sproj; auto).
+    clearbody q5.
+    pose proof (timers_spec cx q5 al aall) as P6.
+    destruct (tcp_process_timers cx q5 al aall) as (s6, t6). cbn [fst] in P6.
+    destruct P6 as ((F1 & _) & _).
+    pose proof (zwp_spec cx s6 al) as P7.
+    destruct (tcp_process_zwp cx s6 al) as (s7, t7). cbn [fst] in P7.
+    destruct P7 as ((G1 & _) & _).
+    obind_inv H. destruct a as ((s8, rep8), t8). rename E into H8.
+    destruct (payload_core _ _ _ _ _ _ _ _ _ H8) as (P1 & _).
+    inversion H; subst s'. rewrite P1, G1, F1, D54, S5, S4, S3 in Hst'. discriminate.
+  - exfalso. inversion H3; subst p3; clear H3. inversion H; subst s'. sproj in Hst'. discriminate.
+Qed.
+
+(* ---------------------------------------------------------------------------------------- *)
+(* the advertised window after an ACK went out                                               *)
+(* ---------------------------------------------------------------------------------------- *)
+(* the last advertisement is of RCV.NXT and of the scaled window of this very state *)
+Definition fresh_adv (s' : socket) : Prop :=
+  s_remote_last_ack s' = Some (tcp_window_start s') /\ s_remote_last_win s' = tcp_scaled_window s'.
+
+Definition fsh (s' : socket) (rep : option packet) : Prop :=
+  match rep with
+  | None => True
+  | Some p => r_control (snd p) = CRst \/ fresh_adv s'
+  end.
+
+Lemma ack_reply_fresh cx s ip r s' p : tcp_ack_reply cx s ip r = (s', p) -> fresh_adv s'.
+Proof.
+  unfold tcp_ack_reply, tcp_reply, with_payload_len. intros H. inversion H; subst s' p; clear H.
+  unfold fresh_adv, tcp_scaled_window, tcp_window_start. rproj. split; reflexivity.
+Qed.
+
+Lemma challenge_fresh cx s0 ip r s' rep : tcp_challenge_ack_reply cx s0 ip r = (s', rep) -> fsh s' rep.
+Proof.
+  unfold tcp_challenge_ack_reply. destruct (cx_now cx <? s_challenge_ack_timer s0).
+  - intros H; inversion H; subst. exact I.
+  - destruct (tcp_ack_reply cx (upd_challenge_ack_timer s0 (cx_now cx + 1000000)) ip r) as (s1, p) eqn:E.
+    intros H; inversion H; subst s' rep; clear H. right. exact (ack_reply_fresh _ _ _ _ _ _ E).
+Qed.
+
+Lemma ack_check_ret_fresh cx s ip r t s1 rep :
+  tcp_process_ack_check cx s ip r = Ok (Ret t s1 rep) -> fsh s1 rep.
+Proof.
+  unfold tcp_process_ack_check. intros H.
+  destruct (s_state s) eqn:Est; des_all H.
+  all: try (apply obind_ok_inv in H; destruct H as (p & Hp & H); inversion H; subst;
+            destruct (rst_reply_to _ _ _ Hp) as (A & B); left; exact B).
+  all: try (inversion H; subst; exact I).
+  all: match goal with
+       | E : tcp_challenge_ack_reply ?cx ?s0 ?ip ?r = (_, _) |- _ =>
+           inversion H; subst; exact (challenge_fresh _ _ _ _ _ _ E)
+       end.
+Qed.
+
+Lemma window_ret_fresh cx s ip r t s1 rep :
+  tcp_process_window cx s ip r = Ok (Ret t s1 rep) -> fsh s1 rep.
+Proof.
+  unfold tcp_process_window. intros H.
+  destruct (s_state s); try discriminate H.
+  all: destruct (tcp_segment_in_window _ _ _ _) as (inw, tg); destruct inw;
+    [ destruct (negb (seq_le _ _)); [discriminate|];
+      repeat (apply obind_ok_inv in H; destruct H as (? & _ & H)); discriminate | ].
+  all: destruct (control_eqb (r_control r) CRst); [inversion H; subst; exact I|].
+  all: match type of H with context [tcp_ack_reply ?cx0 ?q ?ip0 ?r0] =>
+         destruct ((match r_payload r0 with [] => false | _ => true end)
+                   && (match r_control r0 with CNone | CPsh | CFin => true | _ => false end));
+         [ destruct (tcp_ack_reply cx0 q ip0 r0) as (s', p) eqn:E; inversion H; subst;
+           right; exact (ack_reply_fresh _ _ _ _ _ _ E)
+         | destruct (tcp_challenge_ack_reply cx0 q ip0 r0) as (s', p) eqn:E; inversion H; subst;
+           exact (challenge_fresh _ _ _ _ _ _ E) ]
+       end.
+Qed.
+
+Lemma transition_ret_fresh cx s0 ip r c al aof t s1 rep :
+  tcp_process_transition cx s0 ip r c al aof = Ok (Ret t s1 rep) -> fsh s1 rep.
+Proof.
+  intros H. unfold tcp_process_transition in H.
+  destruct (s_state s0); destruct c; cbv beta iota in H.
+  all: unfold tcp_enter_time_wait, tcp_fin_received in H.
+  all: repeat match type of H with
+              | context [if ?c then _ else _] => destruct c
+              end.
+  all: try discriminate H.
+  all: try (inversion H; subst; exact I).
+  all: match type of H with context [tcp_challenge_ack_reply ?cx0 ?q ?ip0 ?r0] =>
+         destruct (tcp_challenge_ack_reply cx0 q ip0 r0) as (s', p) eqn:E; inversion H; subst;
+         exact (challenge_fresh _ _ _ _ _ _ E)
+       end.
+Qed.
+
+Lemma payload_fresh cx s0 ip r payload off s' rep tg :
+  tcp_process_payload cx s0 ip r payload off = Ok (s', rep, tg) -> fsh s' rep.
+Proof.
+  intros H. unfold tcp_process_payload in H.
+  destruct (l_len payload =? 0); [inversion H; subst; exact I|].
+  destruct (asm_atrf _ _ _ _) as (asm', res).
+  destruct res as [contig|]; [|inversion H; subst; exact I].
+  destruct (rb_write_unallocated _ _ _) as (rx, lw).
+  destruct (negb (lw =? l_len payload)); [discriminate|].
+  apply obind_ok_inv in H. destruct H as (rx2 & _ & H).
+  match type of H with (let '(_, _) := ?m in _) = _ => destruct m as (q1, t1) end.
+  destruct (negb (asm_is_empty (s_assembler q1)) || _).
+  - destruct (tcp_ack_reply cx q1 ip r) as (q2, p) eqn:E.
+    inversion H; subst s' rep tg. right. exact (ack_reply_fresh _ _ _ _ _ _ E).
+  - inversion H; subst. exact I.
+Qed.
+
+Theorem process_reply_fresh cx s ip r s' rep tags :
+  tcp_process cx s ip r = Ok (s', rep, tags) -> fsh s' rep.
+Proof.
+  intros H. unfold tcp_process in H.
+  destruct (negb (tcp_accepts s ip r)); [discriminate|].
+  apply obind_ok_inv in H. destruct H as (p1 & H1 & H).
+  destruct p1 as [t1 []|t1 s1 rep1].
+  2:{ inversion H; subst. exact (ack_check_ret_fresh _ _ _ _ _ _ _ H1). }
+  apply obind_ok_inv in H. destruct H as (p2 & H2 & H).
+  destruct p2 as [t2 ((s2, payload), off)|t2 s2r rep2].
+  2:{ inversion H; subst. exact (window_ret_fresh _ _ _ _ _ _ _ H2). }
+  apply obind_ok_inv in H. destruct H as (((al & aof) & aall) & _ & H).
+  apply obind_ok_inv in H. destruct H as (p3 & H3 & H).
+  destruct p3 as [t3 s3|t3 s3r rep3].
+  2:{ inversion H; subst. exact (transition_ret_fresh _ _ _ _ _ _ _ _ _ _ H3). }
+  apply obind_ok_inv in H. destruct H as ((s4 & wu) & H4 & H).
+  apply obind_ok_inv in H. destruct H as ((s5 & t5) & H5 & H).
+  destruct (tcp_process_timers cx _ al aall) as (s6, t6).
+  destruct (tcp_process_zwp cx s6 al) as (s7, t7).
+  apply obind_ok_inv in H. destruct H as (((s8 & rep8) & t8) & H8 & H).
+  inversion H; subst s' rep tags.
+  exact (payload_fresh _ _ _ _ _ _ _ _ _ H8).
+Qed.
